@@ -77,10 +77,10 @@ func (sc *C16Scenario) pairs() (keys, vals [][]byte) {
 }
 
 type segReader struct {
-	data []byte
-	pos  int
-	st   C16Stream
-	i    int
+	data  []byte
+	pos   int
+	st    C16Stream
+	i     int
 	fired bool
 }
 
